@@ -31,13 +31,26 @@ def _pos(body, pat, what):
     return m.start()
 
 
-def _order(body, pats, what):
-    last = -1
-    for p in pats:
-        i = _pos(body, p, what)
-        if i <= last:
-            raise ValueError("%s: `%s` is not after the previous marker" % (what, p))
-        last = i
+def _order(body, pats, what, src=None):
+    """the patterns occur in this order; when one is missing and `src` is given, the same is tried once more with one level of
+    private helpers inlined behind their calls (a step may have been moved into a helper)"""
+    try:
+        last = -1
+        for p in pats:
+            m = re.compile(p).search(body, last + 1)
+            if not m:
+                _pos(body, p, what)
+                raise ValueError("%s: `%s` is not after the previous marker" % (what, p))
+            last = m.start()
+    except ValueError:
+        if src is None:
+            raise
+        _order(extract.inline_helpers(src, body, keep_call=True), pats, what)
+
+
+def _has(opt):
+    """`x.get_<opt>().is_some()` or the same test written `if let Some(..) = x.get_<opt>()`"""
+    return r"(?:get_%s\(\)\.is_some\(\)|if\s+let\s+Some\([^)]*\)\s*=\s*[\w.]*get_%s\(\))" % (opt, opt)
 
 
 @extract.item("E7c_ConcFlags")
@@ -76,26 +89,26 @@ def e7c_concflags(repo):
         raise ValueError("notify_document_closed no longer resets the record with reset_all_data() under one guard")
 
     gp = fn_body(ds, "get_parsed_document")
-    _order(gp, [r"try_read\(\)", r"get_opened_document\(\)\.is_some\(\)", r"get_saved_document\(\)\.is_some\(\)",
+    _order(gp, [r"try_read\(\)", _has("opened_document"), _has("saved_document"),
                 r"drop\(read_doc_info\)", r'yield_point_at\("parsed\.unlocked"', r"try_write\(\)",
                 r"parse_document\(", r"set_saved_document\("], "get_parsed_document")
     if len(re.findall(r"parse_document\(", gp)) != 1:
         raise ValueError("get_parsed_document parses more than once")
     after_write = gp[_pos(gp, r"try_write\(\)", "get_parsed_document"):]
-    recheck = bool(re.search(r"get_(opened|saved)_document\(\)\.is_some\(\)", after_write))
+    recheck = bool(re.search(_has("(?:opened|saved)_document"), after_write))
     if recheck:
         raise ValueError("get_parsed_document now re-checks the record under the write lock: revisit the model (yParsed step)")
 
     sa = strip_comments(read(repo, "manager/semantic_analysis_service.rs"))
     au = fn_body(sa, "analyze_uri")
-    _order(au, [r"get_parsed_document", r"annotated_ast\.is_some\(\)", r'yield_point_at\("analyze\.checked"', r"self\.analyze\("], "analyze_uri")
+    _order(au, [r"get_parsed_document", r"annotated_ast\.is_(?:some|none)\(\)", r'yield_point_at\("analyze\.checked"', r"self\.analyze\("], "analyze_uri", src=sa)
     if "annotation_done" in au:
         raise ValueError("analyze_uri now looks at annotation_done: revisit the model (check step)")
 
     an = strip_comments(read(repo, "analyzers_v2/ast_annotator.rs"))
     ad = fn_body(an, "annotate_doc")
     _order(ad, [r"annotation_done\.clone\(\)", r"try_lock\(\)", r"annotated_ast\s*=\s*Some\(", r"only_definitions\s*=",
-                r'yield_point_at\("annot\.published"', r"set_symbol_table\(Some\(st\)\)", r"self\.walk_tree\(", r"drop\(lock\)"], "annotate_doc")
+                r'yield_point_at\("annot\.published"', r"set_symbol_table\(Some\(\w+\)\)", r"self\.walk_tree\(", r"drop\(\w+\)"], "annotate_doc")
     if "ptr_eq" in ad:
         raise ValueError("annotate_doc now compares documents: revisit the model (yPublished step)")
 
